@@ -278,10 +278,8 @@ def r11_6(ctx: Ctx, rule="R11.6"):
     ctx.ob(rule, add, sig[0] if sig else "signature lookup", oksig,
            "a residue signature (name, atom count) of the topology that does not occur in the coordinate file refuses the topology",
            node=sig[0] if sig else add.node)
-    rs = pfind(add.node, "V_res = self.system_gro[V_si:V_si + len(E_pat)]")
-    mk = pfind(add.node, "Molecule(%s, V_res)" % top_p)
-    okr = bool(rs) and bool(mk) and rs[0][1]["V_res"] == mk[0][1]["V_res"] and \
-        phas(add.node, "%s = self._check_index_in_available_mgro(%s, %s)" % (rs[0][1]["V_si"], rs[0][1]["E_pat"], top_p))
+    rs = pfind(add.node, "Molecule(%s, self.system_gro[V_si:V_si + len(E_pat)])" % top_p)
+    okr = bool(rs) and phas(add.node, "%s = self._check_index_in_available_mgro(%s, %s)" % (rs[0][1]["V_si"], rs[0][1]["E_pat"], top_p))
     ctx.ob(rule, add, rs[0][0] if rs else "first instance", okr,
            "the species' template molecule is built from the residues of the first matching run and checked against the "
            "topology (Molecule(topology, residues))", node=rs[0][0] if rs else add.node)
